@@ -920,3 +920,44 @@ func TestC17Sim(t *testing.T) {
 		}
 	})
 }
+
+// C05 end to end: the retransmissions a real sender produces after lost answers, cuts, refused
+// recovery requests, polling give-ups and restarts of either side (no source changes: every
+// name has one version) must never lead to a second delivery or a second log record.
+func TestC05Sim(t *testing.T) {
+	vt.CheckBubble(t, "C05", func(t *vt.T) {
+		p := SimProfile{Prop: "C05", Faults: true, PollFaults: true, RestartR: t.Bool("restartR"), CrashS: t.Bool("crashS"), MaxSteps: 60, MaxFiles: 6, AllowDelete: t.Bool("delete")}
+		s := runSim(t, p)
+		defer s.Close()
+		c := s.conf
+		s.Quiesce(2*(c.ScanDelay+c.PollDelay+time.Duration(c.PollAttempts)*c.PollInterval) + 5*time.Minute)
+		s.observe() // the arrival monitor reports a second delivery / log record (C05) when it sees one
+		simNonTrivial(s, t)
+		// a retransmission happened: some byte of some version went over the wire twice
+		seen := map[string][]rng{}
+		again := false
+		for _, wp := range s.wire {
+			k := wp.name + "|" + wp.hash
+			for _, r := range seen[k] {
+				if r.b < wp.end && wp.beg < r.e {
+					again = true
+				}
+			}
+			seen[k] = append(seen[k], rng{wp.beg, wp.end})
+		}
+		if again {
+			t.NonTrivial()
+			t.Class("bytes-retransmitted")
+		}
+		// end state: per version at most one arrival and (without receiver crashes) one log record
+		cnt := map[string]int{}
+		for _, a := range s.w.arrivals {
+			cnt[a.Target+"|"+a.MD5]++
+		}
+		for k, n := range cnt {
+			if n > 1 {
+				s.viol("C05", "delivered-twice", "%s arrived %d times", k, n)
+			}
+		}
+	})
+}
